@@ -16,7 +16,6 @@ from collections import Counter
 from io import StringIO
 from pathlib import Path
 from typing import Iterable, List, Optional, Callable, TextIO, Dict, Set, Any
-import re
 import gffutils
 from Bio import SeqIO
 from Bio.SeqRecord import SeqRecord
@@ -58,7 +57,7 @@ def filter_and_sort_qualifiers(qualifiers: Dict[str, List[str]]) -> Optional[Dic
     """Filter out the qualifiers for any terms we have extracted as BioCantor identifiers as well as any
     GFF3 special terms"""
     qualifiers = {
-        key: sorted(vals) for key, vals in qualifiers.items() if not re.match(BIOCANTOR_QUALIFIERS_REGEX, key)
+        key: sorted(vals) for key, vals in qualifiers.items() if not BIOCANTOR_QUALIFIERS_REGEX.fullmatch(key)
     }
     return qualifiers if qualifiers else None
 
